@@ -19,7 +19,7 @@ SPEC = {
     "bounds": {"quick": {"dim": "1", "conditioning points": "2", "targets": "2", "modes": "2", "histories": "<=2 operations before the final call"}, "thorough": {"histories": "<=3 operations; 2-D for the formula"}},
     "stubs": ["(pseudo-)inverse: symbolic matrix per inversion, identified across objects that invert the same matrix", "random numbers: symbols named by seed value and draw position", "correlation: uninterpreted"],
     "oracle": "field = kriging estimate + sqrt(kriging variance / var) * unconditional field of the same seed (+ nugget part); after a history: the field of a freshly built Krige + CondSRF with the final data, model, mean/trend and seed",
-    "outside": ["histories longer than the bound", "changes made directly on the wrapped Krige object's mean / trend / normalizer (not through CondSRF)"],
+    "outside": ["histories longer than the bound"],
     "assumptions": ["floats read as reals", "changed values differ beyond the library's allclose tolerances"],
 }
 
